@@ -1,7 +1,7 @@
 (* RunC01for.v — case-file helpers of the C01 check for the `for` layer (Proofs/C01for.v): the comparison
    "parse_script (printed text) = compile_for (tree)" and the structured reading of a for loop run inside Coq against what the
    implementation did on the printed text (used only by generated case files).  No proofs here. *)
-From BS Require Import Model.Base Model.Num Model.Arith Model.ExprParser Model.Script Model.Interp Model.LibCore Model.LibAll Model.Run
+From BS Require Import Model.Base Model.Num Model.Arith Model.ExprParser Model.Script Model.Interp Model.LibCore Model.LibAll Model.LibPartial Model.Run
                        Model.RunC01 Proofs.C01 Proofs.C01b Proofs.C01for Proofs.C01forReal.
 
 (* 1 = the parser model lowers the printed text of  for x[, idx] in e: body endfor  to exactly [compile_for_real 0 ..] *)
@@ -17,7 +17,7 @@ Definition check_struct_for (fuel : nat) (x : str) (idxo : option str) (e : expr
            (xlog : list str) (xglobals : list (str * tree)) : N :=
   let cfg := mkcfg 0 false true in
   let w0 := upd_count (upd_globals w (inject_library (w_globals w))) 0 in
-  match fexec cfg (libfull cfg) no_url no_lint UHost (lbl L_Values 0) (lbl L_Length 0) (for_index 0 idxo) x e b fuel (None, w0) with
+  match fexec cfg (libfull2 cfg) no_url no_lint UHost (lbl L_Values 0) (lbl L_Length 0) (for_index 0 idxo) x e b fuel (None, w0) with
   | None => 3%N
   | Some (o, (_, w1)) =>
     let out := match o with SNormal => Some (OVal VNull) | SStop r => Some r | _ => None end in
@@ -54,7 +54,7 @@ Definition check_struct_u (fuel : nat) (u : ustmt) (w : world) (xp : expected) (
   let w0 := upd_count (upd_globals w (inject_library (w_globals w))) 0 in
   let f := fst (annotate 0 u) in
   if negb (gwf false f && gguard f) then 0%N else
-  match gexec cfg (libfull cfg) no_url no_lint UHost fuel f (None, w0) with
+  match gexec cfg (libfull2 cfg) no_url no_lint UHost fuel f (None, w0) with
   | None => 3%N
   | Some (o, (_, w1)) =>
     let out := match o with SNormal => Some (OVal VNull) | SStop r => Some r | _ => None end in
